@@ -1,3 +1,3 @@
-(* _client.py :: ncrypt_unprotect_secret :: ('callarg', '_sync_get_key', 0, 'username') :  username *)
+(* _client.py :: ncrypt_unprotect_secret :: shape kernel :  _sync_get_key(... username: username  [= username] ...) *)
 Definition k_onl_unprot_kw_username (username : list Z) : list Z :=
   username.
